@@ -65,13 +65,23 @@ def gen(rng, tier):
             deps[0]['fill'] = deps[0]['code']
         if rng.random() < 0.2:
             # detection-limit flags with a numeric limit in the header, and cells that hold the flag: they are values
-            attrs = [a for a in attrs if a not in ('LLOD_FLAG', 'LLOD_VALUE')] + ['LLOD_FLAG', 'LLOD_VALUE']
+            # (sometimes the flag alone: no per-variable limit is given)
+            attrs = [a for a in attrs if a not in ('LLOD_FLAG', 'LLOD_VALUE')] + (
+                ['LLOD_FLAG', 'LLOD_VALUE'] if rng.random() < 0.7 else ['LLOD_FLAG'])
             for d_ in deps:
                 if not d_['mask'][0]:
                     d_['vals'][0] = -8888.
         out.append(dict(nrec=nrec, deps=deps, attrs=attrs, iunit=rng.choice(['s', 'seconds since midnight', None, 'Start_UTC']),
                         wdate=rng.random() < 0.8, tdtype=rng.choice(['d', 'd', 'f', 'i']),
                         ipos=rng.choice([0, 0, 1, len(deps)])))      # where the independent variable sits among the input's variables
+    # on every run: a header comment of several lines (as a file with continuation lines gives after it was read): the counts
+    # in the output are those of the lines that are written, so the output re-opens (oracle only: the text model has
+    # one line per comment)
+    for k in range(2):
+        c = dict(out[k])
+        c['multiline'] = ['PI_CONTACT_INFO', 'OTHER_COMMENTS'][k]
+        c['attrs'] = [a for a in c['attrs'] if a != c['multiline'] and not a.startswith('LLOD')] + [c['multiline']]
+        out.append(c)
     return out
 
 
@@ -104,6 +114,8 @@ def build(case):
         mkindep()
     for a in case['attrs']:
         setattr(f, a, ATTRVAL.get(a, 'text of %s' % a))
+    if case.get('multiline'):
+        setattr(f, case['multiline'], 'first line\nsecond line\n  third line')
     return f
 
 
@@ -185,7 +197,45 @@ def view(g, case=None):
                 deps=deps, attrs=attrs)
 
 
+def _impl_multiline(case):
+    from .. import camx
+    from PseudoNetCDF.icarttfiles.ffi1001 import ffi1001, ncf2ffi1001
+    import PseudoNetCDF as pnc
+    with lib.pnc_warnings():
+        f = build(case)
+        p = os.path.join(camx.tmpdir(), 'c19m_%d_%d.ict' % (os.getpid(), np.random.randint(1 << 30)))
+        try:
+            res = dict(ml=True)
+            try:
+                ncf2ffi1001(f, p).close()
+                text = open(p).read().split('\n')
+                nh = int(text[0].split(',')[0])
+                res['names_line'] = text[nh - 1] if nh - 1 < len(text) else None
+                g = ffi1001(p)
+                res['deps'] = {k: [None if m else float(x) for x, m in zip(np.ma.getdata(g.variables[k][:]).tolist(),
+                                                                          np.ma.getmaskarray(g.variables[k][:]).tolist())]
+                               for k in g.variables if k != g.INDEPENDENT_VARIABLE}
+                res['auto'] = type(pnc.pncopen(p)).__name__
+                ncf2ffi1001(g, p + '.2').close()
+                g2 = ffi1001(p + '.2')
+                res['deps2'] = {k: [None if m else float(x) for x, m in zip(np.ma.getdata(g2.variables[k][:]).tolist(),
+                                                                           np.ma.getmaskarray(g2.variables[k][:]).tolist())]
+                                for k in g2.variables if k != g2.INDEPENDENT_VARIABLE}
+            except lib.HarnessError:
+                raise
+            except Exception as e:
+                res['err'] = type(e).__name__
+                res['msg'] = str(e)[:120]
+            return res
+        finally:
+            for q in (p, p + '.2'):
+                if os.path.exists(q):
+                    os.remove(q)
+
+
 def impl(case):
+    if case.get('multiline'):
+        return _impl_multiline(case)
     from .. import camx
     from PseudoNetCDF.icarttfiles.ffi1001 import ffi1001, ncf2ffi1001
     import PseudoNetCDF as pnc
@@ -261,6 +311,8 @@ def _file_tokens(case):
 
 
 def to_line(case, res):
+    if case.get('multiline'):
+        return 'c19 read lines=F:0'
     # two model questions in one case: (1) the writer's lines for the source file, (2) the reader on those lines;
     # the harness sends (2) for the lines the LIBRARY wrote and checks (1) in agree() through a second request
     if 'lines' not in res:
@@ -278,6 +330,8 @@ def _model_write(case, res):
 
 
 def agree(case, out, res):
+    if case.get('multiline'):
+        return None
     if 'err' in res:
         return 'impl raised %s (%s)' % (res['err'], res.get('msg'))
     mw = _model_write(case, res)
@@ -317,7 +371,16 @@ def _sig7(a, b):
 
 def oracle(case, res):
     if 'err' in res:
-        return 'write/read of an in-domain file raised %s %s' % (res['err'], res.get('msg'))
+        return 'write/read of an in-domain file raised %s %s' % (res['err'], ' '.join(str(res.get('msg')).split()))
+    if case.get('multiline'):
+        names = [t.strip() for t in (res['names_line'] or '').split(',')]
+        if names != ['Start_UTC'] + [d['name'] for d in case['deps']]:
+            return 'a comment of several lines: the declared header length does not point at the column-name line (%r)' % (res['names_line'] or '')[:60]
+        if res['auto'] != 'ffi1001':
+            return 'a comment of several lines: automatic format detection gives %s' % res['auto']
+        if res['deps'] != res['deps2']:
+            return 'a comment of several lines: a second write / read cycle changed the data'
+        return None
     v = res['view']
     text = res['text'].split('\n')
     nh = int(text[0].split(',')[0])
